@@ -271,3 +271,6 @@ func Exits(f func()) bool { f(); return false }
 // the executor's write monitor (no-op natively); Unprotect lifts it.
 func Protect(name string, ptr interface{}) {}
 func Unprotect(ptr interface{})            {}
+
+// OutLines returns the lines printed to standard output so far (executor only).
+func OutLines() []string { return nil }
